@@ -74,7 +74,8 @@ def replay(case):
     g = case["g"]
     run = {"cpd": _cpd, "valid": _valid, "model": _model}[g["part"]]
     run(st, g)
-    return [v for v in st.violations if v["site"] == case.get("site") and v["kind"] == case.get("kind")][:5]
+    keys = ("site", "node", "defect", "col", "delta", "order", "new", "sub", "ev")
+    return [v for v in st.violations if all(v["case"].get(k) == case.get(k) for k in keys)][:5]
 
 
 def colnorm(rf, child):
